@@ -267,10 +267,22 @@ def run(ctx, rep):
         inst = g.inst(n)
         # only constructions inside the record-loading path (decoder, record iterator, loader) matter
         a = [strip_ids(x) for x in event_args(g, n)]
-        derived = any(contains(x, lambda y: isinstance(y, tuple) and y and (y[0] in ("errval", "cl_arg") or
-                                                                            (y[0] == "call" and re.search(r"ToString>?::to_string$|fmt::format$", str(y[1]))
-                                                                             and contains(y, lambda z: isinstance(z, tuple) and z and z[0] in ("errval", "cl_arg")))))
-                      for x in a[1:]) if len(a) > 1 else (len(a) == 1 and contains(a[0], lambda y: isinstance(y, tuple) and y and y[0] in ("errval", "cl_arg")))
+        def is_err_src(y):
+            """an error value: the Err payload of something, or the parameter of a closure that an error-side combinator runs"""
+            if not (isinstance(y, tuple) and y):
+                return False
+            if y[0] == "errval":
+                return True
+            if y[0] == "cl_arg" and isinstance(y[1], int):
+                ci = g.insts[y[1]]
+                if ci.parent is not None and ci.call_bb is not None:
+                    tt = g.term((ci.parent.id, ci.call_bb))
+                    return tt["k"] == "call" and bool(re.search(r"result::Result::<T, E>::(map_err|inspect_err|or_else|unwrap_or_else)$|ErrorContextExt", tt["callee"]["path"]))
+            return False
+        derived = any(contains(x, lambda y: is_err_src(y) or (isinstance(y, tuple) and y and y[0] == "call"
+                                                              and re.search(r"ToString>?::to_string$|fmt::format$", str(y[1]))
+                                                              and contains(y, is_err_src)))
+                      for x in a[1:]) if len(a) > 1 else (len(a) == 1 and contains(a[0], is_err_src))
         if not derived:
             continue
         n_new += 1
